@@ -143,6 +143,8 @@ func (c *connection) write() {
 		verifAt(c, "W.top", len(record))
 		select {
 		case <-c.stopChan:
+			verifAt(c, "W.stop", len(record))
+			c.failPendingActive(record)
 			clear(record)
 			verifAt(c, "W.exit")
 			return
@@ -152,18 +154,8 @@ func (c *connection) write() {
 				c.onActiveEvent(activeMsg, record)
 			}
 		case msg, ok := <-c.activeMsgCompleteChan: // 平台主动下发的完成情况
-			verifAt(c, "W.sel.complete", ok, msg)
 			if ok {
-				seq := msg.ExtensionFields.PlatformSeq
-				if v, ok := record[seq]; ok {
-					msg.ExtensionFields.PlatformData = v.ExtensionFields.Data
-					msg.ExtensionFields.PlatformCommand = v.Command
-					msg.ExtensionFields.ActiveSend = true
-					c.onWriteExecutionEvent(msg)
-					v.replyChan <- msg
-					verifAt(c, "W.complete.delivered", seq)
-					delete(record, seq)
-				}
+				c.completeActive(record, msg)
 			}
 		case subPackMsg, ok := <-c.reissuePackChan: // 分包补传的
 			verifAt(c, "W.sel.reissue", ok, subPackMsg)
@@ -197,10 +189,8 @@ func (c *connection) stop() {
 		_ = c.conn.Close()
 		verifAt(c, "S.connClosed")
 		clear(c.handles)
-		close(c.msgChan)
-		close(c.activeMsgChan)
-		close(c.activeMsgCompleteChan)
-		close(c.reissuePackChan)
+		// msgChan等数据通道不关闭: 写协程 超时协程 会话管理协程还可能往里面发送 关闭会导致send on closed channel
+		// 写协程通过stopChan退出 退出时让还在等待的下发请求返回错误
 		verifAt(c, "S.chansClosed")
 	})
 }
@@ -275,7 +265,7 @@ func (c *connection) onActiveEvent(activeMsg *ActiveMessage, record map[uint16]*
 	if err != nil {
 		replyMsg.ExtensionFields.Err = errors.Join(ErrWriteDataFail, err)
 		verifAt(c, "W.active.failsend.before", seq)
-		c.activeMsgCompleteChan <- replyMsg
+		c.completeActive(record, replyMsg)
 	} else if activeMsg.OverTimeDuration >= 0 {
 		duration := 3 * time.Second
 		if activeMsg.OverTimeDuration > 0 {
@@ -284,17 +274,47 @@ func (c *connection) onActiveEvent(activeMsg *ActiveMessage, record map[uint16]*
 		go func(overtimeMsg *Message) {
 			time.Sleep(duration)
 			verifAt(c, "T.fire", seq)
+			overtimeMsg.ExtensionFields.Err = errors.Join(ErrWriteDataOverTime,
+				fmt.Errorf("overtime is [%.2f]second", duration.Seconds()))
+			verifAt(c, "T.checked", seq)
 			select {
 			case <-c.stopChan:
 				return
-			default:
+			case c.activeMsgCompleteChan <- overtimeMsg:
 			}
-			verifAt(c, "T.checked", seq)
-			overtimeMsg.ExtensionFields.Err = errors.Join(ErrWriteDataOverTime,
-				fmt.Errorf("overtime is [%.2f]second", duration.Seconds()))
-			c.activeMsgCompleteChan <- overtimeMsg
 			verifAt(c, "T.sent", seq)
 		}(replyMsg)
+	}
+}
+
+// completeActive 平台主动下发的完成情况(终端应答 超时 写失败) 把结果交给等待的调用方
+func (c *connection) completeActive(record map[uint16]*ActiveMessage, msg *Message) {
+	verifAt(c, "W.sel.complete", true, msg)
+	seq := msg.ExtensionFields.PlatformSeq
+	if v, ok := record[seq]; ok {
+		msg.ExtensionFields.PlatformData = v.ExtensionFields.Data
+		msg.ExtensionFields.PlatformCommand = v.Command
+		msg.ExtensionFields.ActiveSend = true
+		c.onWriteExecutionEvent(msg)
+		v.replyChan <- msg
+		verifAt(c, "W.complete.delivered", seq)
+		delete(record, seq)
+	}
+}
+
+// failPendingActive 连接结束时 还没有应答的和还在排队的下发请求都返回错误 避免调用方一直等待
+func (c *connection) failPendingActive(record map[uint16]*ActiveMessage) {
+	err := errors.Join(ErrWriteDataFail, errors.New("connection closed"))
+	for seq, v := range record {
+		v.replyChan <- newActiveMessage(seq, v.Command, v.ExtensionFields.Data, err)
+	}
+	for {
+		select {
+		case v := <-c.activeMsgChan:
+			v.replyChan <- newErrMessage(err)
+		default:
+			return
+		}
 	}
 }
 
@@ -356,7 +376,7 @@ func (c *connection) onActiveRespondEvent(record map[uint16]*ActiveMessage, msg 
 			if tmp.HasRespondFunc(k) {
 				msg.ExtensionFields.PlatformSeq = k
 				verifAt(c, "W.resp.match", k)
-				c.activeMsgCompleteChan <- msg
+				c.completeActive(record, msg)
 				return true
 			}
 		}
